@@ -308,7 +308,9 @@ KV_SHAPES = ['k = 1', 'k = "v"', 'k = "a;b,c"', 'k = x', 'k', 'k:? = x', 'k:% = 
              # string-literal keys (log >= 0.4.21)
              '"q key" = 1', '"ref" = x', '"q key":? = x',
              # a block inside the value, with a statement and a string literal of its own; a struct literal with commas
-             'k = if c { g(); "p" } else { "q" }', 'k = m { a: 1, b: "v" }.b']
+             'k = if c { g(); "p" } else { "q" }', 'k = m { a: 1, b: "v" }.b',
+             # expressions with a string literal in the middle, commas and semicolons inside brackets, a bracket in a character literal
+             'k = x == "y"', 'k = h(1, "a;b")', 'k = t[i]', 'k = vec!["p"; 2].len()', "k = s.find('(')"]
 MESSAGES = ['plain', '{} {}', '{name:?}', 'say \\"hi\\"', 'é名😀', 'mid [ref: 12] text', ' leading blank', '\\tleading escape',
             '//host/path', '/* x */ y', '', '{{x}}', 'ends \\\\']
 TRAILING = ['', ', x', ', x, y', ', a = 1', ', "lit"', ',']
